@@ -11,6 +11,7 @@ import suite_vec
 import suite_names
 import suite_table
 import suite_csv
+import suite_repr
 
 
 def c04(rep, tier, seed):
@@ -297,7 +298,17 @@ def c19(rep, tier, seed):
     suite_types.validate(rep, evs, "c19.column_dtypes", ("dtype_rule",))
 
 
+def c20(rep, tier, seed):
+    rep.assumptions += [
+        "value formatting, alignment and quoting are not checked; rows are recognised by rendering distinguishable ints",
+        "'# empty' is accepted as stating zero elements; '<mixed>' is accepted iff the column dtypes differ, and then the [dtype] header row must be true",
+    ]
+    suite_repr.gen(rep, tier)
+    suite_repr.values(rep)
+
+
 CHECKS = {
+    "C20": c20,
     "C19": c19,
     "C03": c03,
     "C18": c18,
